@@ -18,6 +18,14 @@
 //! resource limits met exactly (`limits`), the environment (`env`: every class through scripted
 //! `Read + Seek` behaviours — short serves, `BufReader` capacities, one boundary at every byte offset,
 //! `Interrupted` — must be read to the same tree as from a cursor).
+//! Added by the second extension: bytes that state nothing (`pad`: every filling of the padding of every switch
+//! shape at every alignment), features × class file versions (`versioned`: every version 45.3..67 and every
+//! preview minor with exactly the features the JVMS allows in it), nesting up to the reader's own depth bounds
+//! met exactly (`deep`: element values and dynamic constants at every depth 1..=256 with a two-way oracle where
+//! the reference parser cannot follow), tables stated in several attributes in every sequence, present-but-empty
+//! tables and merged tables above 65535 entries (`repeat`), odd but legal values (`odd`: ConstantValue × field
+//! type, unordered and repeated annotations), and the position of the class in its stream (`offset`: non-zero
+//! start positions, concatenated class files, the reader left exactly behind the class).
 //!
 //! Clause table (statement of C01 → where it is decided; oracle everywhere: `check_bytes` =
 //! sdiff(reference parse of the same bytes, projection of the tree the real reader returns), plus
@@ -25,21 +33,22 @@
 //!
 //! | clause | decided in (space; "+" = added by the extension) |
 //! |---|---|
-//! | header: version | suite `versions-and-utf8` (45.0, 45.3, 46..67 .0, previews 56..66); + `facts::versions`: every major 45..=55 x 11 minors of every size class |
+//! | header: version | suite `versions-and-utf8` (45.0, 45.3, 46..67 .0, previews 56..66); + `facts::versions`: every major 45..=55 x 11 minors of every size class; ++ `versioned`: each of these versions on the kitchen sink / module descriptors reduced to the features of that version (a feature is read in the version that introduced it: tables 4.4-B, 4.7-B) |
 //! | header: access flags, this/super/interfaces | suite sinks, corpus; + `facts::flags`: every single bit, 0, 0xFFFF, the JVMS mask and its complement of the class flag word; `facts::names`: 55 odd-but-valid names as this/super/interface; `limits`: 32000 interfaces |
-//! | every field and method with flags and descriptors | suite sinks, corpus; + `facts::flags` (field, method, inner-class, parameter, module, requires, exports, opens flag words bit by bit); `facts::names`; `limits` (65535 fields, 65535 methods) |
-//! | every instruction with its resolved operands | suite `instruction-samples`, shape sweeps, sink `<clinit>`; + `big::dense`: the complete operand range of bipush, sipush, narrow iinc, wide iinc (every index, every constant), every local index 0..=65535 of every load/store/ret in shortest, plain and wide form, newarray, multianewarray 1..=255, all ordered pairs of operand-free opcodes, all ordered pairs of the ~270 instruction samples with operands; `big::pool`: ldc/ldc_w/ldc2_w of ~55000 Integer/Long entries spread over all pool indices up to 65534; `facts::bootstrap`: all sequences of ≤ 3 condy/indy sites that share or do not share bootstrap methods, names, descriptors |
-//! | ... and branch targets | shape sweeps (every target at length ≤ L), `encoding-product`; + `big::far`: all 18 narrow opcodes at distances 32766..32769 / -32767..-32770 (thorough: windows of 16), goto_w/jsr_w over ±65530, tableswitch/lookupswitch arms 60000 bytes forward and 65500 bytes backward at each of the 4 paddings, 16378 table arms / 8189 lookup pairs, a short branch at every third byte of a 65535-byte method |
+//! | every field and method with flags and descriptors | suite sinks, corpus; + `facts::flags` (field, method, inner-class, parameter, module, requires, exports, opens flag words bit by bit); `facts::names`; `limits` (65535 fields, 65535 methods); ++ `odd`: every legal pairing of ConstantValue kind and field type (Integer x I/S/C/B/Z ...) with boundary values, on static/final/neither fields |
+//! | every instruction with its resolved operands | suite `instruction-samples`, shape sweeps, sink `<clinit>`; + `big::dense`: the complete operand range of bipush, sipush, narrow iinc, wide iinc (every index, every constant), every local index 0..=65535 of every load/store/ret in shortest, plain and wide form, newarray, multianewarray 1..=255, all ordered pairs of operand-free opcodes, all ordered pairs of the ~270 instruction samples with operands; `big::pool`: ldc/ldc_w/ldc2_w of ~55000 Integer/Long entries spread over all pool indices up to 65534; `facts::bootstrap`: all sequences of ≤ 3 condy/indy sites that share or do not share bootstrap methods, names, descriptors; ++ `deep`: chains of 1..=256 dynamic constants (the reader's `MAX_DYNAMIC_DEPTH` met exactly) loaded by ldc and as invokedynamic argument, pool references forward and backward |
+//! | ... and branch targets | shape sweeps (every target at length ≤ L), `encoding-product`; + `big::far`: all 18 narrow opcodes at distances 32766..32769 / -32767..-32770 (thorough: windows of 16), goto_w/jsr_w over ±65530, tableswitch/lookupswitch arms 60000 bytes forward and 65500 bytes backward at each of the 4 paddings, 16378 table arms / 8189 lookup pairs, a short branch at every third byte of a 65535-byte method; ++ `pad`: the same targets whatever the 1..3 padding bytes of a switch hold (each byte with every value, every combination of 8 telling values; 6 switch shapes x 4 alignments, two switches per method, 64 KiB methods, the sink, the corpus) |
 //! | exception ranges | sink `rich_code`, corpus; + `big::far` (ranges ending at code_length 65535, handlers at 65534), `facts::tables` (all start/end/handler triples of 4-instruction programs x every other table), `limits` (65535 entries) |
-//! | debug tables (lines, local variables, local variable types, source file, SDE, parameters) | sinks with `split_tables`, corpus (-g -parameters); + `big::far` (pcs at 255/256, 32767/32768, 65533..65535; a label at every one of the 65536 offsets), `perm` (all 8! orders of the Code attributes), `facts::tables`, `facts::members`, `facts::utf16` (SDE of 200000 code units), `limits` (255 parameters) |
-//! | stack-map frames | `rich_code` gaps around 63/64, both encodings, corpus, suite `cldc-stack-map`; + `big::far` (offset sums up to 65534, one delta of 65534, a frame at every instruction), `facts::tables` (every subset of frame positions), `cldc` (the CLDC `StackMap` attribute hand-encoded over all programs of ≤ 3 (thorough 4) instructions x all frame position sets), `limits` (65535 locals and stack items) |
-//! | annotations (incl. type annotations, defaults) | sinks, `element-value*`, corpus; + `perm`, `facts::members`, `limits` (element values 60 deep = the reference parser's reach, 65535 pairs / array elements / type annotations, type path of 255) |
+//! | debug tables (lines, local variables, local variable types, source file, SDE, parameters) | sinks with `split_tables`, corpus (-g -parameters); + `big::far` (pcs at 255/256, 32767/32768, 65533..65535; a label at every one of the 65536 offsets), `perm` (all 8! orders of the Code attributes), `facts::tables`, `facts::members`, `facts::utf16` (SDE of 200000 code units), `limits` (255 parameters); ++ `repeat`: every sequence of ≤ 3 (thorough 4) LineNumberTables of 0/1/2 entries, every interleaving of ≤ 3 (4) LocalVariableTables and LocalVariableTypeTables of 0/1/2 entries, merged tables of 65536..131070 entries |
+//! | stack-map frames | `rich_code` gaps around 63/64, both encodings, corpus, suite `cldc-stack-map`; + `big::far` (offset sums up to 65534, one delta of 65534, a frame at every instruction), `facts::tables` (every subset of frame positions), `cldc` (the CLDC `StackMap` attribute hand-encoded over all programs of ≤ 3 (thorough 4) instructions x all frame position sets), `limits` (65535 locals and stack items); ++ `repeat`: a StackMapTable / StackMap without any frame |
+//! | annotations (incl. type annotations, defaults) | sinks, `element-value*`, corpus; + `perm`, `facts::members`, `limits` (element values 60 deep = the reference parser's reach, 65535 pairs / array elements / type annotations, type path of 255); ++ `deep`: arrays in arrays, annotations in annotations and both alternating at every depth 1..=256 (the reader's `MAX_ELEMENT_VALUE_DEPTH` met exactly) as annotation value, AnnotationDefault and inside a type annotation; `repeat`: annotation attributes with zero annotations at every level; `odd`: lists out of alphabetical order with repeated types, repeated identical annotations, repeated element names |
 //! | module/record/nest data, inner classes, enclosing method, permitted subclasses, signature | sinks, `module-open*`, corpus; + `facts::flags`, `facts::members` (every subset of ≤ 3 (thorough 4) entries of a 19-entry class menu), `perm`, `limits` (every table at 65535 entries) |
 //! | unrecognised attributes byte-for-byte | sinks (all five levels); + `perm`, `facts::members`, `facts::misplaced` (every JVMS attribute name in every container where the JVMS does not define it must be kept as an unknown attribute), `limits` (unknown attributes of 65535..200000 bytes at all five levels) |
 //! | nothing invented / dropped / attached to the wrong member | sdiff itemises every fact in both directions; + `facts::members`: all 2^9 field, 2^12 method, 2^8 Code, 2^6 record-component attribute subsets on one member with the complement on its neighbour and the subset again on the next, all ordered pairs of single attributes on neighbours |
 //! | independent of constant-pool layout | suite `pool-layouts` (720 permutations, rotations, pads); + `big::pool`: a pool filled to index 65534 (two-slot entries included) under first-use, reversed, Utf8-first/last and rotated orders: every kind of entry below 256, above 32767 and near 65534 |
 //! | independent of attribute order | suite rotations/reversal via the assembler; + `perm` on the bytes: per container all permutations (≤ 6, thorough ≤ 8 attributes; the 8 Code attributes of a dedicated method: all 40320 in both tiers), larger containers every ordered pair first + rotations + reversal; every corpus class with all containers reversed / rotated |
-//! | independent of instruction encoding variant | suite `encoding-product` (3^8), switch paddings, every shape sweep sequence in two encodings; + `big::dense` (every operand in shortest, plain and wide form), `big::far` (goto vs goto_w on both sides of the i16 boundary, switch paddings at the end of a 64 KiB method) |
+//! | independent of instruction encoding variant | suite `encoding-product` (3^8), switch paddings, every shape sweep sequence in two encodings; + `big::dense` (every operand in shortest, plain and wide form), `big::far` (goto vs goto_w on both sides of the i16 boundary, switch paddings at the end of a 64 KiB method); ++ `pad` (the contents of the padding) |
+//! | (the class file as a part of a stream) | + `env`; ++ `offset`: every class of the corpus and a part of the suite behind 1, 2, 3, 4, 5, 7, 8, 13, 4099 other bytes, in front of trailing bytes, through a BufReader, and as second and third of three concatenated class files; the reader must be left exactly behind the class |
 //! | quantifier: generated + javac corpus | corpus (357 classes), thorough: java.base |
 //! | (reader's own bounds) | + `limits`: exactly 32768 resolved bootstrap arguments must be read; more than that is refused by `pool.rs` — reported under `more-than-32768-bootstrap-arguments:reader:refused-valid-class` |
 
@@ -61,6 +70,18 @@ mod cldc;
 mod limits;
 #[path = "c01/env.rs"]
 mod env;
+#[path = "c01/pad.rs"]
+mod pad;
+#[path = "c01/versioned.rs"]
+mod versioned;
+#[path = "c01/deep.rs"]
+mod deep;
+#[path = "c01/repeat.rs"]
+mod repeat;
+#[path = "c01/odd.rs"]
+mod odd;
+#[path = "c01/offset.rs"]
+mod offset;
 #[allow(dead_code)]
 #[path = "c20/io.rs"]
 mod io;
@@ -207,11 +228,20 @@ fn main() {
 		// the label decides the key scope (see `scope_of`)
 		let label = body.lines().find_map(|l| l.strip_prefix("label=")).unwrap_or("replay").to_owned();
 		let mut st = Stats::new();
-		check_bytes(ctx, &mut st, &label, &bytes, None);
-		let mut st2 = Stats::new();
-		check_bytes(ctx, &mut st2, &label, &bytes, None);
+		if label.starts_with("deep/") {
+			// (nesting the reference parser cannot follow: judged without it, see `deep`)
+			deep::replay(ctx, &mut st, &label, &bytes);
+			deep::replay(ctx, &mut st, &label, &bytes);
+		} else {
+			check_bytes(ctx, &mut st, &label, &bytes, None);
+			let mut st2 = Stats::new();
+			check_bytes(ctx, &mut st2, &label, &bytes, None);
+		}
 		if label.starts_with("env/") {
 			env::replay(ctx, &mut st, &label, &bytes);
+		}
+		if label.starts_with("offset/") {
+			offset::replay(ctx, &mut st, &label, &bytes);
 		}
 		ctx.finish(json!({"evaluations": 2, "distinct_nontrivial": 2, "rule": "replay of one class file, twice", "samples": [body.lines().next()]}), &[]);
 	}
@@ -223,14 +253,23 @@ fn main() {
 		total = std::mem::take(&mut total).merge(st);
 	};
 
+	// development aid: `C01_ONLY=<substring of a space name>` runs the matching extension spaces only; such a run never
+	// yields a verdict (it ends as a machinery failure)
+	let only = std::env::var("C01_ONLY").ok();
 	let samples = insn_samples();
 	for (name, cases) in cfmodel::suite::listed_groups(quick) {
+		if only.is_some() {
+			continue;
+		}
 		run(name, par_models(ctx, cases));
 	}
 
 	// 2. shape sweep: all sequences of length ≤ L
 	let max_len = ctx.tier.pick(3, 4);
 	for len in 1..=max_len {
+		if only.is_some() {
+			continue;
+		}
 		let space = ShapeSpace::new(len);
 		let encs = [Encoding::default(), Encoding { default_form: 2, pool: PoolOrder::Reversed, ..Default::default() }];
 		let n = space.count();
@@ -254,7 +293,16 @@ fn main() {
 		("cldc-stackmap", cldc::run),
 		("reader-limits-met-exactly", limits::run),
 		("environment-short-reads", env::run),
+		("switch-padding-bytes", pad::run),
+		("features-by-class-file-version", versioned::run),
+		("nesting-depths-up-to-the-readers-bounds", deep::run),
+		("repeated-empty-and-merged-tables", repeat::run),
+		("odd-but-legal-values", odd::run),
+		("stream-offsets-and-concatenated-class-files", offset::run),
 	] {
+		if only.as_ref().is_some_and(|o| !name.contains(o.as_str())) {
+			continue;
+		}
 		let t0 = ctx.elapsed_s();
 		let (st, bounds) = f(ctx);
 		if std::env::var_os("C01_DEBUG").is_some() {
@@ -264,6 +312,10 @@ fn main() {
 		run(name, st);
 	}
 
+	if only.is_some() {
+		eprintln!("C01_ONLY: {} evaluations, outcomes {:?}, {} violations", total.evaluations, total.outcomes, ctx.violation_count());
+		vcore::machinery_fail("C01_ONLY is set: a partial run yields no verdict");
+	}
 	// 8. the vendored javac corpus (+ the JDK's java.base in the thorough tier)
 	let corpus = cfmodel::corpus::vendored(&vcore::verif_root());
 	let n_corpus = corpus.len();
@@ -317,7 +369,10 @@ fn main() {
 		"javac-17 output is covered through the vendored corpus only",
 		"byte-level attribute permutations keep a class well-formed and its statement unchanged (self-checked: the reference parser reads the same class description from the permuted bytes)",
 		"the CLDC StackMap attribute is read with the meaning its specification defines (frames in ascending offset order), as cfmodel's reference parser does",
-		"element values nested deeper than 64 and dynamic constants nested deeper than 32 are beyond the reference parser's bounds and are not explored",
+		"element values nested deeper than 64 and dynamic constants nested deeper than 32 are beyond the reference parser's bounds: up to the reader's documented bounds (256) they are judged against the model the class was assembled from (two-way; the assembling code is the same for every depth and is checked three-way at the depths the reference parser follows); above 256 a clean refusal is recorded, not judged",
+		"the values of the padding bytes of tableswitch / lookupswitch state nothing (JVMS 6.5 gives them no meaning); the reference parser reads the same class whatever they hold (self-checked per case)",
+		"a class file of version v is built from the features the JVMS allows in version v only (what a newer attribute in an older class file states is not settled by the statement)",
+		"a reader is read from its current position (std::io) and is left behind the last byte of the class file; class files may follow each other in one stream (class_reader.rs says so itself)",
 		"a class file is the same class file through every legal std::io::Read + Seek: requests served short and Interrupted (retry) are legal answers of the environment; the scripted readers are self-tested before use",
 	]);
 }
